@@ -951,7 +951,9 @@ def check_model_roundtrip(ctx, divs, only=None):
             model_roundtrip_case(ctx, sc, mopts, sid, divs)
 
 
-def window_case(k, n):
+def window_case(k, n, reuse=False):
+    """`reuse`: the producer refills ONE preallocated batch in place for every step (what the window
+    holds must not follow the producer's buffer)"""
     from ..lib import snap_common as sc
 
     run = sc.fresh_run(None, {"replay_buffer_steps": k, "train_positions": 4, "train_batch": 4})
@@ -959,8 +961,15 @@ def window_case(k, n):
     run.state.replay_buffer = []
     run.serve_mode()
     obs = []
+    buf = sc.make_batch(1) if reuse else None
     for i in range(n):
-        run.train_step(sc.make_batch(i + 1))
+        if reuse:
+            fresh = sc.make_batch(i + 1)
+            for key in buf:
+                buf[key].copy_(fresh[key])
+            run.train_step(buf)
+        else:
+            run.train_step(sc.make_batch(i + 1))
         obs.append([int(b["positions"][0, 0]) - 1 for b in run.state.replay_buffer])
     return obs
 
@@ -968,17 +977,24 @@ def window_case(k, n):
 def check_window(ctx, divs):
     ks = (1, 2, 3, 4, 6) if ctx.thorough else (1, 3)
     for k in ks:
+      for reuse in (False, True):
         n = 2 * k + 3
-        obs = window_case(k, n)
+        try:
+            obs = window_case(k, n, reuse)
+        except Exception as e:
+            divs.append(Divergence("corr.snapshot:window", {"kind": "window", "k": k, "reused_batch_buffer": reuse}, "crash " + type(e).__name__, "the window after every push"))
+            continue
         model = driver.run_lines(["snapshot window %d %d" % (k, i + 1) for i in range(n)])
         for i, (o, mo) in enumerate(zip(obs, model)):
             ctx.evaluated()
             io = ",".join(map(str, o))
             if i + 1 > k:
-                ctx.nontrivial("window|%d|%d" % (k, i))
+                ctx.nontrivial("window|%d|%d|%s" % (k, i, reuse))
             ctx.count("window:evicting" if i + 1 > k else "window:filling")
+            if reuse:
+                ctx.count("window:producer-reuses-one-batch-buffer")
             if io != mo:
-                divs.append(Divergence("corr.snapshot:window", {"kind": "window", "k": k, "pushes": i + 1}, io, mo))
+                divs.append(Divergence("corr.snapshot:window", {"kind": "window", "k": k, "pushes": i + 1, "reused_batch_buffer": reuse}, io, mo))
                 break
 
 
@@ -1079,6 +1095,31 @@ def check_startup_sequence(ctx, divs):
                         shutil.rmtree(d2, ignore_errors=True)
                 ctx.evaluated()
                 ctx.count("startup-sequence:%s:%s" % (via, serve))
+                if via == "resume" and got == want and serve == "float32":
+                    # the same process saves a LATER step into the same directory and resumes once
+                    # more (`latest` is re-pointed): what comes back is the later step
+                    try:
+                        sc.init_state(run2, 43, 7)
+                        want2 = sc.params_fp(run2.state.model.state_dict())
+                        hook2 = m.saving.SavingHook(freq=1)
+                        hook2.before_run(run2.state, run2.config)
+                        with contextlib.redirect_stdout(io.StringIO()):
+                            hook2.after_step(run2.state)
+                        run3, (kind3, _d3, _b3) = sc.resume_outcome(d, opts)
+                        got3 = sc.params_fp(run3.state.model.state_dict()) if kind3 == "loaded" else kind3
+                    except Exception as e:
+                        want2, got3 = "ok", "crash " + type(e).__name__
+                    ctx.evaluated()
+                    ctx.count("startup-sequence:second-resume-in-one-process")
+                    if got3 != want2:
+                        divs.append(
+                            Divergence(
+                                "corr.snapshot:startup",
+                                {"kind": "startup-sequence", "serve_dtype": serve, "via": via, "second_resume": True},
+                                "a second resume in the same process, after a later step was saved into the same run directory, gives %s" % ("the parameters of the EARLIER step" if got3 == want else got3 if isinstance(got3, str) and len(got3) < 40 else "other parameters"),
+                                "the later step's parameters, bit for bit",
+                            )
+                        )
                 if got != want:
                     divs.append(
                         Divergence(
